@@ -19,7 +19,8 @@ RULE = ('case = (1..3 memories with random images, incl. one mapped near 2^32 an
         'per history. distinct_nontrivial = distinct (history hash, fault script, k, port-4 wire hash).')
 ASSUMPTIONS = ['device memory protocol as in the firmware: read reply <=24 data bytes, write 5-byte header',
                'duplicates are drained before a conflicting request is issued (a stale reply may legitimately carry old data)']
-REQUIRED = ['mon.reads_completed', 'mon.writes_completed', 'mon.failed_notifications', 'mon.images_compared',
+REQUIRED = ['mon.tester_reads', 'mon.tester_writes', 'mon.tester_writes_crossing_a_256_byte_boundary_with_a_remainder', 'mon.tester_reads_over_a_corrupted_byte',
+            'mon.reads_completed', 'mon.writes_completed', 'mon.failed_notifications', 'mon.images_compared',
             'mon.chunk_requests', 'mon.probe_after_history', 'mon.link_drop_runs', 'mon.error_status_runs',
             'mon.requests_issued_while_no_link_is_open', 'mon.deck_memory_requests_issued_from_a_completion_callback',
             'mon.duplicate_reply_runs', 'mon.lossy_runs', 'mon.high_address_runs']
@@ -39,6 +40,7 @@ def cases(tier, seed):
                     'line_p': rnd.choice((0.0, 0.0, 0.03)), 'high': i % 5 == 0, 'many': i % 23 == 7,
                     'kmax': 6 if tier == 'quick' else 14})
     out += [{'part': 'deck', 'seed': seed * 37 + i, 'n': 40} for i in range(2 if tier == 'quick' else 10)]
+    out += [{'part': 'tester', 'seed': seed * 41 + i, 'n': 8} for i in range(16 if tier == 'quick' else 100)]
     return out
 
 
@@ -542,8 +544,107 @@ def run_deck(desc, ctx):
             ctx.violate('mem:deck:pending-record-left-behind-or-request-not-served', {'failed_read': fails, 'next_read': [a.hex() for a in after]})
 
 
+def run_tester(desc, ctx):
+    """The memory tester element end to end over the real memory subsystem: write_data(start, size) leaves exactly the
+    test pattern (address modulo 256) in the addressed range and nothing else changed, one completion per request;
+    read_data validates exactly the bytes of its range."""
+    from vf import detsched as ds, simlink
+    from cflib.crazyflie import Crazyflie
+    rnd = random.Random(desc['seed'])
+    size = 0x1000
+    img = bytearray((i & 0xFF) for i in range(size))
+    corrupt = sorted(rnd.sample(range(size), rnd.randint(0, 3)))
+    for a in corrupt:
+        img[a] ^= 0x5A
+    wsize = 0x800
+    mems = [{'type': 0x15, 'size': size, 'len': size, 'origin': 0, 'data': bytes(img).hex()},
+            {'type': 0x15, 'size': wsize, 'len': wsize, 'origin': 0, 'data': (b'\xEE' * wsize).hex()}]
+    prof = gen.profile(desc['seed'], 1, 1, proto=10, mems=mems)
+    dev = simcf.SimCF(prof)
+    spec = simlink.LinkSpec(dev, latency=0.001)
+    uri = 'sim://c06t'
+    simlink.SIMS[uri] = spec
+    ops = []
+    for _ in range(desc['n']):
+        if rnd.random() < 0.5:
+            start = rnd.choice((0, rnd.randrange(size - 1), rnd.randrange(256)))
+            if corrupt and rnd.random() < 0.4:
+                start = max(0, rnd.choice(corrupt) - rnd.randint(0, 40))
+            ops.append(('r', start, rnd.randint(1, min(300, size - start))))
+        else:
+            start = rnd.choice((0, rnd.randrange(wsize - 1), rnd.randrange(300), 0x18, 200, 100))
+            ln = rnd.choice((rnd.randint(1, 700), 255, 256, 257, 100, 25, 26))
+            ops.append(('w', start, max(1, min(ln, wsize - start))))
+    ob = {'results': [], 'problems': []}
+
+    def fn(s):
+        dev.now = lambda: s.now
+        cf = Crazyflie()
+        done = ds.Event()
+        cf.connected.add_callback(lambda u: done.set())
+        cf.connection_failed.add_callback(lambda *a: done.set())
+        cf.open_link(uri)
+        from cflib.crazyflie.mem import MemoryElement
+        if not done.wait(300.0) or len(cf.mem.get_mems(MemoryElement.TYPE_MEMORY_TESTER)) != 2:
+            ob['problems'].append('connect failed or tester memories not found')
+            return
+        s.sleep(0.3)
+        rt, wt = cf.mem.get_mems(MemoryElement.TYPE_MEMORY_TESTER)
+        for (k, start, ln) in ops:
+            ev = ds.Event()
+            calls = []
+            if k == 'r':
+                before = rt.readValidationSucess
+                rt.read_data(start, ln, lambda m: (calls.append(('r',)), ev.set()))
+                ok = ev.wait(60.0)
+                s.sleep(0.05)
+                ob['results'].append(('r', start, ln, ok, len(calls), before, rt.readValidationSucess, None))
+            else:
+                before = bytes(dev.mems[1]['data'])
+                wt.write_data(start, ln, lambda m, a: (calls.append(('w', a)), ev.set()))
+                ok = ev.wait(60.0)
+                s.sleep(0.05)
+                ob['results'].append(('w', start, ln, ok, len(calls), before, bytes(dev.mems[1]['data']), [c[1] for c in calls]))
+        cf.close_link()
+    _, abort, sch = harness.sched_case(fn, seed=desc['seed'], policy=('rtb', 'random')[desc['seed'] % 2], horizon=5000.0)
+    rp = dict(desc)
+    if abort is not None or ob['problems'] or sch.deaths:
+        ctx.violate('mem:tester:hang-or-setup-problem', {'abort': str(abort), 'problems': ob['problems'], 'deaths': [d[1] for d in sch.deaths][:2]}, replay=rp)
+        return
+    valid = True
+    for (k, start, ln, ok, ncalls, before, after, addrs) in ob['results']:
+        ctx.evals()
+        ctx.nontrivial(('tester', k, start, ln))
+        if not ok or ncalls != 1:
+            ctx.violate('mem:tester:%s-request-not-completed-exactly-once' % ('read' if k == 'r' else 'write'),
+                        {'start': start, 'size': ln, 'completions': ncalls}, replay=rp)
+            continue
+        if k == 'r':
+            ctx.count('mon.tester_reads')
+            if any(start <= a < start + ln for a in corrupt):
+                valid = False
+                ctx.count('mon.tester_reads_over_a_corrupted_byte')
+            if bool(after) != valid:
+                ctx.violate('mem:tester:read-validation-verdict-wrong', {'start': start, 'size': ln, 'corrupted_addresses': corrupt,
+                                                                        'readValidationSucess': after, 'expected': valid}, replay=rp)
+                valid = bool(after)
+        else:
+            ctx.count('mon.tester_writes')
+            if (start & 0xFF) + (ln % 256) > 256:
+                ctx.count('mon.tester_writes_crossing_a_256_byte_boundary_with_a_remainder')
+            want = bytearray(before)
+            want[start:start + ln] = bytes((start + i) & 0xFF for i in range(ln))
+            if bytes(want) != after or addrs != [start]:
+                diff = [i for i in range(len(after)) if want[i] != after[i]]
+                ctx.violate('mem:tester:device-memory-differs-from-the-test-pattern-over-the-written-range',
+                            {'start': start, 'size': ln, 'first_differing_addresses': diff[:6], 'completion_addresses': addrs}, replay=rp)
+    ctx.sample({'tester_ops': [(k, st, ln) for (k, st, ln) in ops][:6], 'corrupted_addresses_in_read_memory': corrupt})
+
+
 def run(desc, ctx):
     harness.init()
+    if desc.get('part') == 'tester':
+        return run_tester(desc, ctx)
     if desc.get('part') == 'deck':
         return run_deck(desc, ctx)
     fault = desc['fault']
